@@ -260,10 +260,10 @@ func classify(op Op, class, writer, symptom string, got, want Res, stored kstate
 		actsAlive, _ = sameExact(op, got, w)
 	}
 	switch {
-	case op.Kind == "CompareAndSwap" && strings.HasPrefix(class, "never-expiring-") && got.Err == "":
-		return "C13/memory-cas/zero-expiration-treated-as-expired"
 	case wantAlive && actsAbsent && writer == "CompareAndSwap[ttl=0]":
 		return "C13/memory-cas/ttl0-stores-already-expired-value"
+	case op.Kind == "CompareAndSwap" && strings.HasPrefix(class, "never-expiring-") && actsAbsent:
+		return "C13/memory-cas/zero-expiration-treated-as-expired"
 	case wantAlive && actsAbsent && writer == "SetExpiration[ttl=0]":
 		return "C13/memory-setexpiration/ttl0-expires-now"
 	case op.Kind == "SetExpiration" && expired && got.Err == "":
@@ -458,7 +458,8 @@ func finishSeq(t vkit.TB, c Case, out outcome) {
 // that CAS / RemoveFromList arguments hit the current contents half of the time.
 func TestSequentialModel(t *testing.T) {
 	maxOps := 40
-	vkit.Check(t, 3000, 100000, func(t *rapid.T) {
+	maxSleeps := vkit.Pick(2, 3)
+	vkit.Check(t, 3000, 60000, func(t *rapid.T) {
 		n := rapid.IntRange(4, maxOps).Draw(t, "nops")
 		// shadow model used only to bias argument generation (time = sleeps)
 		shadow := map[string]kstate{}
@@ -468,7 +469,7 @@ func TestSequentialModel(t *testing.T) {
 		for i := 0; i < n; i++ {
 			op := genOp(t, seqOpKinds, seqKeys, seqTTLs, func(k string) kstate { return shadow[k] })
 			if op.Kind == "sleep" {
-				if sleeps >= 3 {
+				if sleeps >= maxSleeps {
 					continue
 				}
 				sleeps++
